@@ -75,7 +75,7 @@ Inductive code :=
 | Ret (e : expr)
 | Raise (ty : str)
 | Interrupt
-| In (c : icfg) (body : code) (args : list expr) (kwargs : list (str * expr)) (k : code)
+| Inp (c : icfg) (body : code) (args : list expr) (kwargs : list (str * expr)) (k : code)
 | Out (c : ocfg) (body : code) (args : list expr) (kwargs : list (str * expr)) (k : code)
 | Try (c h : code)                       (* try: c  except Exception: h *)
 | Discard (k : code)                     (* tape_recorder.discard_recording() *)
@@ -127,14 +127,15 @@ Definition is_trace (e : ev) : bool :=
   match e with EBegin _ _ _ | EBody _ _ _ | ECall _ _ => true | _ => false end.
 Definition trace_of (l : list ev) : list ev := filter is_trace l.
 
-Definition writes_of (l : list ev) : list (str * datum) :=
-  flat_map (fun e => match e with EWrite k d => [(k, d)] | _ => [] end) l.
-Definition pbouts_of (l : list ev) : list (str * datum) :=
-  flat_map (fun e => match e with EPbOut k d => [(k, d)] | _ => [] end) l.
-Definition sent_of (l : list ev) : list (str * (list pyval * list (str * pyval))) :=
-  flat_map (fun e => match e with ESent a x kw => [(a, (x, kw))] | _ => [] end) l.
-Definition aborts_of (l : list ev) : nat :=
-  length (filter (fun e => match e with EAbort => true | _ => false end) l).
+Definition write_of (e : ev) : list (str * datum) := match e with EWrite k d => [(k, d)] | _ => [] end.
+Definition writes_of (l : list ev) : list (str * datum) := flat_map write_of l.
+Definition pbout_of (e : ev) : list (str * datum) := match e with EPbOut k d => [(k, d)] | _ => [] end.
+Definition pbouts_of (l : list ev) : list (str * datum) := flat_map pbout_of l.
+Definition sent_one (e : ev) : list (str * (list pyval * list (str * pyval))) :=
+  match e with ESent a x kw => [(a, (x, kw))] | _ => [] end.
+Definition sent_of (l : list ev) : list (str * (list pyval * list (str * pyval))) := flat_map sent_one l.
+Definition is_abort (e : ev) : bool := match e with EAbort => true | _ => false end.
+Definition aborts_of (l : list ev) : nat := length (filter is_abort l).
 
 (** the instance placeholder at position 0 of the positional tuple of an instance function *)
 Definition SELF : pyval := VStr (U"SELF").
